@@ -147,22 +147,45 @@ def forget(mod):
 def build_dynamic(D, breadth=False):
     """-> list of EClass in class order (the construction of harness/kimpl.py, plus lower/default);
     breadth=True: every operation is first added to its class WITHOUT parameters (all classes), the parameters
-    are described afterwards, class by class (what a loader or an editor does)"""
+    are described afterwards, class by class (what a loader or an editor does).
+    A class may say HOW it is put together, c['build'] = {'supers': 'append'|'ctor'|'extend'|'iadd'|'assign'|'insert0',
+    'features': 'append'|'extend', 'operations': 'append'|'extend'} (default: append); the result is the same
+    description whatever the style"""
     common.use_repo()
     from pyecore import ecore as E
     enums = {en['name']: E.EEnum(en['name'], literals=list(en['literals'])) for en in D.get('enums', [])}
     classes = {}
     order = []
+    def how(c, part):
+        return c.get('build', {}).get(part, 'append')
     for c in D['classes']:
-        classes[c['name']] = E.EClass(c['name'], abstract=c['abstract'])
+        if how(c, 'supers') == 'ctor' and c['supers']:
+            # the super types are declared first: they exist
+            classes[c['name']] = E.EClass(c['name'], superclass=tuple(classes[s] for s in c['supers']), abstract=c['abstract'])
+        else:
+            classes[c['name']] = E.EClass(c['name'], abstract=c['abstract'])
         if c.get('interface'):
             classes[c['name']].interface = True
         order.append(classes[c['name']])
     for c in D['classes']:
-        for s in c['supers']:
-            classes[c['name']].eSuperTypes.append(classes[s])
+        ec, sups, style = classes[c['name']], [classes[s] for s in c['supers']], how(c, 'supers')
+        if not sups or style == 'ctor':
+            continue
+        if style == 'extend':
+            ec.eSuperTypes.extend(sups)
+        elif style == 'iadd':
+            ec.eSuperTypes += sups
+        elif style == 'assign':
+            ec.eSuperTypes = sups
+        elif style == 'insert0':
+            for x in reversed(sups):
+                ec.eSuperTypes.insert(0, x)
+        else:
+            for x in sups:
+                ec.eSuperTypes.append(x)
     byname = {}
     for c in D['classes']:
+        made = []
         for fd in c['features']:
             if fd['kind'] == 'attr':
                 et = enums[fd['type']] if fd['type'] in enums else getattr(E, fd['type'])
@@ -172,14 +195,19 @@ def build_dynamic(D, breadth=False):
             else:
                 f = E.EReference(fd['name'], classes[fd['type']], lower=fd['lower'], upper=fd['upper'],
                                  ordered=fd['ordered'], unique=fd['unique'], containment=fd['containment'])
-            classes[c['name']].eStructuralFeatures.append(f)
+            made.append(f)
             byname[(c['name'], fd['name'])] = f
+            if how(c, 'features') != 'extend':
+                classes[c['name']].eStructuralFeatures.append(f)
+        if how(c, 'features') == 'extend' and made:
+            classes[c['name']].eStructuralFeatures.extend(made)
     for c in D['classes']:
         for fd in c['features']:
             if fd.get('opposite'):
                 byname[(c['name'], fd['name'])].eOpposite = byname[tuple(fd['opposite'])]
     later = []
     for c in D['classes']:
+        made = []
         for od in c['operations']:
             ps = [E.EParameter(p['name'], eType=E.ENativeType, required=p['required']) for p in od['params']]
             if breadth:
@@ -187,7 +215,11 @@ def build_dynamic(D, breadth=False):
                 later.append((op, ps))
             else:
                 op = E.EOperation(od['name'], params=ps)
-            classes[c['name']].eOperations.append(op)
+            made.append(op)
+            if how(c, 'operations') != 'extend':
+                classes[c['name']].eOperations.append(op)
+        if how(c, 'operations') == 'extend' and made:
+            classes[c['name']].eOperations.extend(made)
     for op, ps in later:
         for prm in ps:
             op.eParameters.append(prm)
@@ -1288,3 +1320,16 @@ def ctor_history(D, rng):
             if rng.random() < 0.6:
                 h.append(['xload', ci])
     return h
+
+
+# ------------------------------------------------------------------ how the dynamic metamodel is put together
+SUPER_STYLES = ['append', 'ctor', 'extend', 'iadd', 'assign', 'insert0']
+
+
+def draw_build_styles(D, rng):
+    """per class: how its super types, features and operations reach the dynamic EClass (the static renderings and
+    the description are the same whatever is drawn)"""
+    for c in D['classes']:
+        c['build'] = {'supers': rng.choice(SUPER_STYLES), 'features': rng.choice(['append', 'extend']),
+                      'operations': rng.choice(['append', 'extend'])}
+    return D
